@@ -3,6 +3,7 @@
 package afpacket
 
 import (
+	"bytes"
 	"encoding/json"
 	"fmt"
 	"net"
@@ -68,12 +69,17 @@ func c12CloseChild() {
 				if atomic.LoadInt32(&closed) == 1 {
 					atomic.AddInt64(&readsAfterClose, 1)
 				}
-				// "process" the frame: touch every byte (zero-copy data lives in the ring)
-				sum := 0
-				for _, b := range data {
-					sum += int(b)
+				// "process" the frame as a decoder does: read every byte, now and a moment later (data handed out
+				// by the adapter must stay readable while it is being processed, whatever happens to the socket)
+				snapshot := append([]byte(nil), data...)
+				if c.Traffic > 0 {
+					time.Sleep(150 * time.Microsecond)
 				}
-				_ = sum
+				if !bytes.Equal(snapshot, data) {
+					// the memory was unmapped and the address range reused: no fault, but the frame is gone
+					fmt.Println("FRAME-MEMORY-CHANGED-WHILE-PROCESSED")
+					os.Exit(6)
+				}
 			}
 		}()
 		stopTraffic := make(chan struct{})
@@ -143,6 +149,9 @@ func TestC12RealSocketClose(t *testing.T) {
 			if strings.Contains(text, "CHILD-HARNESS-ERROR") || (err != nil && strings.Contains(text, "unshare")) {
 				fmt.Fprintln(os.Stderr, "C12 real-socket infrastructure problem:", clipS(text))
 				return &kit.Verdict{Inconclusive: true}
+			}
+			if strings.Contains(text, "FRAME-MEMORY-CHANGED-WHILE-PROCESSED") {
+				return v.Failf("a frame handed out by the adapter changed while it was being processed: its memory was released (socket closed) under the receiver\n%s", clipS(text))
 			}
 			if err != nil || !strings.Contains(text, "SURVIVED") {
 				return v.Failf("the process that closed its AF_PACKET socket(s) while a receiver loop was reading did not survive (%v):\n%s", err, clipS(text))
